@@ -37,7 +37,7 @@ func runC06(c *Ctx) {
 	c.Rule("R6.2", "E6/E2", "loss fraction in [0,255]; lost = expected - received only under expected > received", 3)
 	c.Rule("R6.3", "E6/E5", "window coherence of the loss bitmap; bitmap under Cache.mu", 8)
 	c.Rule("R6.4", "E2/E6", "NACK requests: strictly before the newest, exactly what the bitmap reported, dropped when the packet arrived, remainder fed back", 8)
-	c.Rule("R6.5", "E6", "extended highest seqno: last/cycle discipline", 3)
+	c.Rule("R6.5", "E6", "extended highest seqno: last/cycle discipline; restart threshold", 4)
 	pk := p.Pkg("packetcache")
 	if pk == nil {
 		c.Unknown("R6.1", "anchors", 0, "package packetcache not found")
@@ -286,6 +286,43 @@ func runC06(c *Ctx) {
 	}
 	if nRecv < 4 || nExp < 4 {
 		c.Bad("R6.1", "counter stores found", 0, "%d stores to received and %d to expected found (4 and 4 confirmed by hand)", nRecv, nExp)
+	}
+	// a reset (which lets the extended highest seqno go backwards) happens
+	// only for a packet MORE than 256 behind: the constant of the property
+	if si := p.Func("packetcache", "", "seqnoInvalid"); si != nil {
+		fn := p.SSAFunc(si.Obj)
+		okThr, ntrue := true, 0
+		for _, b := range fn.Blocks {
+			r, isR := b.Instrs[len(b.Instrs)-1].(*ssa.Return)
+			if !isR || len(r.Results) != 1 {
+				continue
+			}
+			k, isC := r.Results[0].(*ssa.Const)
+			if isC && k.Value != nil && k.Value.String() == "false" {
+				continue
+			}
+			ntrue++
+			if !isC {
+				okThr = false // a computed answer: not the guarded constant form
+				continue
+			}
+			if !onEdge(b, func(cond ssa.Value, pol bool) bool {
+				bo, ok := cond.(*ssa.BinOp)
+				if !ok || !pol {
+					return false
+				}
+				sub, ok := bo.X.(*ssa.BinOp)
+				if !ok || sub.Op != token.SUB || sub.X != ssa.Value(fn.Params[1]) || sub.Y != ssa.Value(fn.Params[0]) {
+					return false
+				}
+				return (bo.Op == token.GTR && isConst(bo.Y, 256)) || (bo.Op == token.GEQ && isConst(bo.Y, 257))
+			}) {
+				okThr = false
+			}
+		}
+		c.Check(okThr && ntrue > 0, "R6.5", "a packet is 'too old' only when more than 256 behind", si.Pos(), "seqnoInvalid answers true only under reference - seqno > 256", "the tracker restarts for a packet that is within the tolerated reordering window of 256: the extended highest sequence number jumps backwards and received packets are requested again")
+	} else {
+		c.Unknown("R6.5", "seqnoInvalid", 0, "packetcache.seqnoInvalid not found")
 	}
 	// GetStats: snapshot before reset; ESeqno
 	if gs := p.Func("packetcache", "Cache", "GetStats"); gs != nil {
